@@ -116,6 +116,18 @@ def run(repo, chk):
     chk.ob("R16.2", "transform.PteraNameError:is-NameError", any(is_name(b, "NameError") for b in repo.cls("transform.PteraNameError").bases) and
            facts_of(pi).has("self.varname = varname", exactly=[]) and facts_of(pi).has("self.function = function", exactly=[]), pi.where, "PteraNameError is a NameError that records variable and function")
 
+    # ---------------- R16.3 (the offer): what interact hands to the intercept handlers before the guard
+    offers = g.find(lambda n: n.kind == "stmt" and ".intercept(" in n.text() and vname in {x.id for x in ast.walk(n.stmt) if isinstance(x, ast.Name)})
+    guarded_offer = bool(offers) and all(not g.path_exists(g.entry, o, avoid=tests) for o in offers)
+    bi = repo.func("interpret.BaseAccumulator.intercept")
+    tparam = bi.node.args.args[4].arg if len(bi.node.args.args) >= 5 else "tentative"
+    filed = [n for n in walk_local(bi.node) if isinstance(n, ast.Call) and isinstance(n.func, ast.Attribute) and n.func.attr in ("set", "accum") and any(is_name(a, tparam) for a in n.args)]
+    from ..astq import conds as _conds
+    filtered = bool(filed) and all(any(tparam in c and "ABSENT" in c for c in _conds(n, bi.node)) for n in filed)
+    chk.ob("R16.3", "interpret.Interactor.interact:the-value-offered-to-handlers-is-never-the-marker", guarded_offer or filtered, ia.where,
+           "interact offers the tentative value to the intercept handlers BEFORE the `is ABSENT` guard (that is how an overlay supplies a declared-only variable), and "
+           f"BaseAccumulator.intercept files it unconditionally in the capture the handler receives ({[norm(n)[:50] for n in filed]}): for a bare declaration the handler -- a rewriter "
+           "function, the stream of an overridable probe -- is handed the marker as the variable's value")
     # ---------------- R16.3
     def absent_uses(fi):
         out = []
@@ -165,6 +177,8 @@ def run(repo, chk):
            "the result of the intercept chain (possibly ABSENT) is only tested for identity with ABSENT before it may become the value")
     from .shared import variant_selection_obligations
     variant_selection_obligations(repo, chk, "R16.4")
+    from .shared import reinstall_obligations
+    reinstall_obligations(repo, chk, "R16.4", "when a probe that named a conditionally used global leaves while another stays, the function stops fetching that global at entry")
     from .shared import late_bound
     for m_ in ("tweak", "rewrite"):
         fo = repo.func(f"overlay.Overlay.{m_}")
